@@ -32,6 +32,9 @@ func listingForNumbers(r *rand.Rand, nums []int, i386 bool, table map[int]string
 			f.Items = append(f.Items, fillers[r.Intn(len(fillers))])
 		}
 		s := site{Num: n, Gap: r.Intn(3), Kind: "raw"}
+		if r.Intn(25) == 0 { // the number is loaded far ahead of the trap
+			s.Gap = []int{64, 126, 127, 128, 129, 256, 1000, 4096, 5000}[r.Intn(9)]
+		}
 		if r.Intn(3) == 0 {
 			s.Kind, s.Wrapper = "call", wrappers[r.Intn(len(wrappers))]
 		}
